@@ -950,4 +950,97 @@ func c01Code(g *gen, emit func(name string, ok bool, where ast.Node, what string
 		g.def("c01_install_limit_extra", "option nat", term,
 			"implementation.go InstallPackages: g.SetLimit(runtime.GOMAXPROCS(0) + k) gives Some k; None = the group has no limit ["+g.pos(at)+"]")
 	}
+	// ---- wave 3: files written from offset 0, and the order of the repository indexes -----------------------
+	// every call that opens a file in the function, as the list of its os.O_* flags (os.Create = O_RDWR|O_CREATE|O_TRUNC,
+	// os.CreateTemp = a new file: O_RDWR|O_CREATE|O_EXCL)
+	openFlags := func(rel, recv, fn string) (string, ast.Node) {
+		fd := findFunc(rel, recv, fn)
+		var calls []string
+		var at ast.Node = fd
+		if fd != nil {
+			ast.Inspect(fd, func(x ast.Node) bool {
+				c, ok := x.(*ast.CallExpr)
+				if !ok {
+					return true
+				}
+				var flags []string
+				switch exprText(c.Fun) {
+				case "os.Create":
+					flags = []string{"O_RDWR", "O_CREATE", "O_TRUNC"}
+				case "os.CreateTemp":
+					flags = []string{"O_RDWR", "O_CREATE", "O_EXCL"}
+				case "os.OpenFile":
+					if len(c.Args) != 3 {
+						return true
+					}
+					for _, f := range strings.Split(exprText(c.Args[1]), "|") {
+						flags = append(flags, strings.TrimPrefix(strings.TrimSpace(f), "os."))
+					}
+				default:
+					return true
+				}
+				qs := make([]string, len(flags))
+				for i, f := range flags {
+					qs[i] = coqStr(f)
+				}
+				calls = append(calls, "["+strings.Join(qs, "; ")+"]")
+				at = c
+				return true
+			})
+		}
+		if len(calls) == 0 {
+			fail("C01: %s %s: no call that opens the output file (os.Create / os.OpenFile / os.CreateTemp)", rel, fn)
+		}
+		return "[" + strings.Join(calls, "; ") + "]", at
+	}
+	{
+		t, at := openFlags("pkg/build/build.go", "Context", "ImageLayoutToLayer")
+		g.def("c01_layer_file_open", "list (list string)", t, "pkg/build/build.go ImageLayoutToLayer: the flags of every call that opens the file the single layer is written to ["+g.pos(at)+"]")
+		t, at = openFlags("pkg/build/oci/index.go", "", "BuildIndex")
+		g.def("c01_index_file_open", "list (list string)", t, "pkg/build/oci/index.go BuildIndex: the flags of the call that opens the output tarball ["+g.pos(at)+"]")
+	}
+	{
+		// GetRepositoryIndexes: each goroutine stores its index at its own position of a slice made with the length of
+		// the repository list; nothing is appended to that slice inside a goroutine
+		fd := findFunc("pkg/apk/apk/index.go", "", "GetRepositoryIndexes")
+		ok := false
+		var at ast.Node = fd
+		if fd != nil {
+			sized := map[string]bool{} // slices made with make([]T, len(<repos>))
+			ast.Inspect(fd, func(x ast.Node) bool {
+				as, isa := x.(*ast.AssignStmt)
+				if !isa || len(as.Lhs) != 1 || len(as.Rhs) != 1 {
+					return true
+				}
+				if c, isc := as.Rhs[0].(*ast.CallExpr); isc && exprText(c.Fun) == "make" && len(c.Args) == 2 && strings.HasPrefix(exprText(c.Args[1]), "len(") {
+					sized[exprText(as.Lhs[0])] = true
+				}
+				return true
+			})
+			stored, appended := false, false
+			ast.Inspect(fd, func(x ast.Node) bool {
+				fl, isf := x.(*ast.FuncLit)
+				if !isf {
+					return true
+				}
+				ast.Inspect(fl.Body, func(y ast.Node) bool {
+					as, isa := y.(*ast.AssignStmt)
+					if !isa || len(as.Lhs) != 1 || len(as.Rhs) != 1 {
+						return true
+					}
+					if ix, isi := as.Lhs[0].(*ast.IndexExpr); isi && sized[exprText(ix.X)] {
+						stored = true
+						at = as
+					}
+					if c, isc := as.Rhs[0].(*ast.CallExpr); isc && exprText(c.Fun) == "append" {
+						appended = true
+					}
+					return true
+				})
+				return true
+			})
+			ok = stored && !appended
+		}
+		emit("c01_indexes_by_position", ok, at, "pkg/apk/apk/index.go GetRepositoryIndexes: every goroutine stores its index at its own position of a slice as long as the repository list (no append in arrival order)")
+	}
 }
